@@ -29,6 +29,7 @@ class Device:
         self.sim = world.sim
         self.plan = plan
         self.mode = mode
+        self.eol = (plan.get('eol') or '\n').encode()
         self.conns = []
         self.rx = []          # {'n', 'conn', 't', 'seq', 'cmd'}
         self.tx = []          # {'n', 't', 'seq', 'data', 'conn'}
@@ -101,9 +102,9 @@ class Device:
             buf += data
             while True:
                 if self.mode == 'string':
-                    if b'\n' not in buf:
+                    if self.eol not in buf:
                         break
-                    cmd, buf = buf.split(b'\n', 1)
+                    cmd, buf = buf.split(self.eol, 1)
                 else:
                     if len(buf) < 4:
                         break
@@ -122,7 +123,7 @@ class Device:
             return       # write-only command: no reply
         script = self.plan.get('replies') or [{'kind': 'echo', 'delay': 0}]
         step = script[n % len(script)]
-        reply = (b'ans:' + cmd + b'\n') if self.mode == 'string' else (b'A' + cmd[1:3] + b'!')
+        reply = (b'ans:' + cmd + self.eol) if self.mode == 'string' else (b'A' + cmd[1:3] + b'!')
         kind = step.get('kind', 'echo')
         delay = step.get('delay', 0)
         if kind == 'echo':
@@ -130,7 +131,7 @@ class Device:
         elif kind == 'garbage':
             # every unsolicited message is unique, so that a returned reply maps to one place in the byte stream
             self.njunk = getattr(self, 'njunk', 0) + 1
-            junk = b'junk %d\n' % self.njunk if self.mode == 'string' else b'J' + self.njunk.to_bytes(2, 'big') + b'K'
+            junk = b'junk %d' % self.njunk + self.eol if self.mode == 'string' else b'J' + self.njunk.to_bytes(2, 'big') + b'K'
             if step.get('after', 0.3) == 0:
                 self.schedule(conn, delay, reply + junk, n)     # same segment as the reply
             else:
@@ -178,8 +179,10 @@ def make_classes(mode, rec, uidgen):
             except Exception as e:   # noqa
                 r['result'] = ('exc', type(e).__name__, str(e)[:200])
                 r['t1'] = rec.sim.vnow()
+                r['seq1'] = rec.sim.next_seq()
                 raise
             r['t1'] = rec.sim.vnow()
+            r['seq1'] = rec.sim.next_seq()
             return float(uid)
     return SimIO, User
 
@@ -210,7 +213,8 @@ class C16(Check):
                    'reconnect rate is judged on attempts made from caller tasks (communicate -> check_connection); the '
                    'poll thread attempts once per pollinterval by construction']
     PROBES = ('c16.concurrent-callers', 'c16.multicomm', 'c16.late-reply', 'fault.device-close', 'fault.device-silent',
-              'fault.device-refuse', 'c16.reconnect', 'c16.garbage', 'c16.bytes-mode', 'c16.string-mode')
+              'fault.device-refuse', 'c16.reconnect', 'c16.garbage', 'c16.bytes-mode', 'c16.string-mode',
+              'c16.two-byte-eol')
 
     def gen_case(self, rng, tier):
         mode = rng.choice(['string', 'string', 'bytes'])
@@ -246,7 +250,9 @@ class C16(Check):
                  'seg_bias': rng.choice([1.0, 0.6, 0.2]), 'lat_bias': rng.choice([1.0, 0.8, 0.5]),
                  'mode': mode, 'ncallers': ncallers, 'timeout': timeout, 'replies': replies,
                  'wait_before': rng.choice([0, 0, 0.05]), 'reconnect_interval': rng.choice([3.0, 10.0]),
-                 'user_poll': rng.choice([0.5, 2.0]), 'faulty': faulty, 'refuse_first': rng.random() < 0.1}
+                 'user_poll': rng.choice([0.5, 2.0]), 'faulty': faulty, 'refuse_first': rng.random() < 0.1,
+                 # a two-byte end of line can be cut in two by the segmentation of the network
+                 'eol': rng.choice(['\n', '\n', '\r\n'])}
         return {'shape': shape, 'ops': ops, 'faults': faults}
 
     def shrink_candidates(self, case):
@@ -267,7 +273,9 @@ class C16(Check):
         mode = shape['mode']
         sim.count('c16.bytes-mode' if mode == 'bytes' else 'c16.string-mode')
         world = ctx['world'] = env.World(sim, shape['seg_bias'], shape['lat_bias'])
-        dev = ctx['dev'] = Device(world, {'replies': shape['replies']}, mode)
+        dev = ctx['dev'] = Device(world, {'replies': shape['replies'], 'eol': shape.get('eol')}, mode)
+        if shape.get('eol') == '\r\n' and mode == 'string':
+            sim.count('c16.two-byte-eol')
         if shape['refuse_first']:
             dev.listener.refuse = 1
         rec = ctx['rec'] = Recorder(sim)
@@ -285,6 +293,8 @@ class C16(Check):
                    'pollinterval': {'value': shape['reconnect_interval']}},
             'u': {'cls': User, 'description': 'user', 'io': 'io', 'pollinterval': {'value': shape['user_poll']}},
         }
+        if mode == 'string' and shape.get('eol', '\n') != '\n':
+            cfg['io']['end_of_line'] = shape['eol']
         srv = world.make_server('n', cfg)
         srv._processCfg()
         io = srv.secnode.modules['io']
@@ -331,6 +341,7 @@ class C16(Check):
                     r['result'] = ('exc', type(e).__name__, str(e)[:200], isinstance(e, CommunicationFailedError))
                     r['connected_after'] = io.is_connected
                 r['t1'] = sim.vnow()
+                r['seq1'] = sim.next_seq()
 
         def faulter():
             for f in sorted(case.get('faults', ()), key=lambda f: f['t']):
@@ -434,7 +445,8 @@ class C16(Check):
         sent_at = {}
         for conn_idx, lst in enumerate(ctx['client_sent']):
             for t, data in lst:
-                for piece in (data.split(b'\n') if mode == 'string' else [data[i:i + 4] for i in range(0, len(data), 4)]):
+                for piece in ([x.rstrip(b'\r') for x in data.split(b'\n')] if mode == 'string'
+                              else [data[i:i + 4] for i in range(0, len(data), 4)]):
                     u = cmd_uid(piece) if piece else None
                     if u is not None:
                         sent_at.setdefault(u, t)
@@ -449,6 +461,7 @@ class C16(Check):
                         if b'\n' not in buf:
                             break
                         line, buf = buf.split(b'\n', 1)
+                        line = line.rstrip(b'\r')
                         if line.startswith(b'ans:'):
                             u = cmd_uid(line[4:])
                             if u is not None:
@@ -467,7 +480,8 @@ class C16(Check):
         sent_seq = {}
         for conn_idx, lst in enumerate(ctx['client_sent_seq']):
             for q, data in lst:
-                for piece in (data.split(b'\n') if mode == 'string' else [data[i:i + 4] for i in range(0, len(data), 4)]):
+                for piece in ([x.rstrip(b'\r') for x in data.split(b'\n')] if mode == 'string'
+                              else [data[i:i + 4] for i in range(0, len(data), 4)]):
                     u = cmd_uid(piece) if piece else None
                     if u is not None:
                         sent_seq.setdefault(u, (conn_idx, q))
@@ -478,7 +492,7 @@ class C16(Check):
                 return None
             conn_idx, q = sent_seq[u]
             try:
-                raw = rep.encode('latin-1') + b'\n' if mode == 'string' else bytes(rep)
+                raw = rep.encode('latin-1') + (shape.get('eol') or '\n').encode() if mode == 'string' else bytes(rep)
             except Exception:   # noqa
                 return None
             if len(raw) < 3:
@@ -536,6 +550,27 @@ class C16(Check):
                         bump('c16.late-reply')   # arrived after the flush: no implementation can tell it apart
             else:
                 etype = c['result'][1]
+                # the call failed although the complete reply to its command was read from the socket while it ran
+                if c['kind'] in ('comm', 'poll') and len(uids) == 1 and uids[0] in sent_seq and 'seq1' in c:
+                    u = uids[0]
+                    conn_idx, q = sent_seq[u]
+                    if mode == 'string':
+                        raw = b'ans:' + (b'p' if c['kind'] == 'poll' else b'c') + str(u).encode() + (shape.get('eol') or '\n').encode()
+                    else:
+                        raw = b'A' + u.to_bytes(2, 'big') + b'!'
+                    data, seqs = streams[conn_idx]
+                    pos = data.find(raw)
+                    if pos >= 0 and seqs[pos] > q and seqs[pos + len(raw) - 1] < c['seq1']:
+                        # (bytes read before it which belong to no complete message would garble it: not judged then)
+                        before = data[:pos]
+                        clean = (before.endswith((shape.get('eol') or '\n').encode()) or not before) if mode == 'string' \
+                            else len(before) % 4 == 0
+                        if clean and not any_garbage:
+                            res.append(Violation('C16.reply-lost', mode + ('|two-byte-eol' if shape.get('eol') == '\r\n' else ''),
+                                                 f'{c["task"]} {c["kind"]} uid {u} raised {c["result"][1:3]} although its complete '
+                                                 f'reply {raw!r} was read from the socket (events {seqs[pos]}..'
+                                                 f'{seqs[pos + len(raw) - 1]}) between the send (event {q}) and the end of the '
+                                                 f'call (event {c["seq1"]})'))
                 if not c['result'][3] if len(c['result']) > 3 else etype not in ('SilentCommunicationFailedError',
                                                                                  'CommunicationFailedError'):
                     res.append(Violation('C16.not-a-communication-error', etype,
